@@ -12,7 +12,27 @@ def P(scenarios, quick, thorough, rule, nontrivial, expect=None, real=None, stub
 REAL_ENG = ["muxer", "protocol.Protocol engine (stateLoop/readLoop/recvLoop/sendLoop)", "repository state-map data", "CBOR decoding in readLoop"]
 STUB_ENG = STUB_NET + ["application (harness handler tasks)", "message contents (opaque tagged CBOR arrays, except tx-submission RequestTxIds)"]
 
+REAL_CONN = ["ouroboros.Connection (connection.go)", "muxer", "protocol engine", "handshake and all mini-protocol clients/servers the connection starts", "message codecs"]
+STUB_CONN = STUB_NET + ["remote peer (scripted raw-segment peer built from the specification automata and sample messages)", "application callbacks"]
+
 PROPS = {
+ "C15": P([("advcalls", 1)], 1600, 60000,
+          "one evaluation = one simulated run of a real Connection (NtN client, NtC client or NtN server) whose blocking API call (19 call sequences over chain-sync, block-fetch, local-state-query, local-tx-monitor, local-tx-submission, peer-sharing, tx-submission) is answered by a raw peer with a right reply, wrong-kind reply, surplus reply, malformed bytes, truncated segment, silence or abrupt close; then the connection is ended by the peer, by Close, or both, and 4 more simulated hours pass; distinct = distinct schedule hash; non-trivial = the responder deviated (any behaviour other than 'right')",
+          ["advcalls.behaviour.wrong-kind", "advcalls.behaviour.surplus", "advcalls.behaviour.malformed", "advcalls.behaviour.truncated", "advcalls.behaviour.silence", "advcalls.behaviour.close"],
+          real=REAL_CONN, stubs=STUB_CONN, budget=(300, 2400)),
+ "C17": P([("roles", 1)], 3000, 120000,
+          "one evaluation = one simulated run of a real Connection (client/server x NtN/NtC/DMQ x duplex requested or not x peer-sharing flag) against a raw peer that completes the handshake with a tape-chosen version and diffusion flag and then sends one well-formed request or response segment; distinct = distinct schedule hash; non-trivial = the segment tested a role gate or an enabled responder",
+          ["roles.request-to-initiator-only", "roles.response-to-responder-only", "roles.request-served"], real=REAL_CONN, stubs=STUB_CONN),
+ "C18": P([("hs-pair", 1), ("hs-conn", 1)], 2400, 100000,
+          "one evaluation = one simulated handshake between a real handshake client and server over real muxers (random subsets of the NtN/NtC/DMQ version tables, equal or different magics, query flag) or between two real Connections (all option combinations); an independent negotiation function says what both must conclude; distinct = distinct schedule hash; non-trivial = any run (every run negotiates)",
+          ["hs.accept", "hs.mismatch", "hs.refused", "hs.query", "hsconn.accept", "hsconn.mismatch", "hsconn.refused", "hsconn.query"], real=REAL_CONN, stubs=STUB_NET + ["application"]),
+ "C19": P([("hs-accept", 1)], 3000, 150000,
+          "one evaluation = one simulated run of a real initiating Connection (NtN/NtC/DMQ, random options) against a raw responder that answers with AcceptVersion(version, data): proposed, known-but-unproposed or unknown version; data of the version's shape, another shape or malformed; own or foreign magic; distinct = distinct schedule hash; non-trivial = the acceptance was invalid",
+          ["hsaccept.invalid"], expect=["hsaccept.invalid", "hsaccept.valid", "hsaccept.unproposed-version"], real=REAL_CONN, stubs=STUB_CONN,
+          assumptions=["the deciding dimension is the Byzantine responder (F11); the schedule dimension adds little here (DESIGN 8/C19)"]),
+ "C23": P([("bf-range", 1), ("bf-single", 1)], 1600, 60000,
+          "one evaluation = one simulated run of a real block-fetch client: range requests against a real server Connection serving 0-5 real blocks of 7 eras per batch (callback order and completion), or a single-block request answered by a raw server with a matching block, another block, no block, an empty batch or several blocks; distinct = distinct schedule hash; non-trivial = a batch completed or a non-matching batch shape was served",
+          ["bf.range-complete", "bfsingle.other-block", "bfsingle.empty-batch", "bfsingle.several-blocks", "bfsingle.no-blocks"], real=REAL_CONN + ["ledger block decoding and hashing"], stubs=STUB_CONN),
  "C11": P([("advrecv", 1)], 4000, 200000,
           "one evaluation = one simulated run of one real engine (one of 11 repository state maps, client or server role) against a raw peer sending 1-12 permitted / wrong-state / unknown-type messages and possibly malformed bytes, with a local application that answers from inside the handler; the oracle replays the deterministic merge of both message sequences on the declared state-map data; distinct = distinct schedule hash; non-trivial = at least one message reached the handler or an offending message was processed",
           ["advrecv.handled", "advrecv.offending-message-processed"], expect=["advrecv.handled", "advrecv.offending-message-processed", "advrecv.garbage-after-valid"], real=REAL_ENG, stubs=STUB_ENG + ["remote peer (scripted raw-segment peer)"]),
